@@ -196,6 +196,15 @@ func (u *Upstream) waitToSendAllDataPointsAndReceiveAllAck(ctx context.Context) 
 		return errors.Errorf("failed to flush chunk: %w", err)
 	}
 
+	// wake the wait below when the caller's context or the close timeout ends
+	wake := func() {
+		u.receivedAck.L.Lock()
+		u.receivedAck.Broadcast()
+		u.receivedAck.L.Unlock()
+	}
+	defer context.AfterFunc(parentCtx, wake)()
+	defer context.AfterFunc(ctx, wake)()
+
 	u.receivedAck.L.Lock()
 	var err error
 	var remaining map[uint32]DataPointGroups
